@@ -16,6 +16,7 @@ RULE = (
     "accepts a raw peer over a scripted pipe and the greeting + READY the real handshake wrote are parsed by a python "
     "RFC-23 reference (Socket-Type = the type, Identity iff configured, nothing else); a case is non-trivial when the implementation produced a wire of >= 2 bytes; "
     "distinct = distinct op lists"
+    " Family transport-handshake (engine net): the handshake bytes as a raw peer RECEIVES them over tcp and ipc, on two connections the socket accepted on a bound endpoint and one it made with connect(), each of the 9 socket types: the greeting is the 64 bytes of the model (version 3.0, NULL, as-server 0 whichever side opened the connection) and the READY announces the socket's type."
 )
 ASSUMPTIONS = [
     "bodies above 48 bytes are compared as first-16-bytes + length + FNV-64 of the real bytes",
@@ -74,7 +75,55 @@ def cases(tier, rng):
             out.append(Case(f"ready-{t}-{idlen}", "codec", [f"encready {t} {tok}"], ["ready"]))
     out += socket_cases(tier)
     out += pressure_cases(tier)
+    out += transport_handshake_cases(tier)
     return out
+
+
+def transport_handshake_cases(tier):
+    """the handshake bytes as a PEER receives them over a real transport, on a connection the socket ACCEPTED on a bound
+    endpoint and on one it made with connect(): both roles run the same greeting (RFC 23: as-server is zero for NULL,
+    whichever side opened the connection)"""
+    from vlib import worldgen as wg
+
+    out = []
+    for t in TYPES9:
+        peer = wg.COMPAT[t][0]
+        for tr in ("tcp4", "ipc"):
+            ops = [f"sock 1 {t}", f"bind 1 {tr}", "rawconn 1 ep#0", f"rawhs 1 {peer}", "rawwait 1 hsdump",
+                   "rawconn 2 ep#0", f"rawhs 2 {peer}", "rawwait 2 hsdump",
+                   f"connectout 1 {tr} 3 {peer}", "rawwait 3 hsdump"]
+            c = Case(f"transport-handshake-{t}-{tr}", "net", ops, ["transport-handshake"])
+            c.expect = ("transport-handshake", t)
+            out.append(c)
+    return out
+
+
+def transport_oracle(case, lines):
+    from vlib import zmtp
+
+    if any(("PANIC" in l) or l.startswith(("ABORT", "TIMEOUT")) for l in lines):
+        return "implementation panicked/aborted"
+    t = case.expect[1]
+    dumps = [(op, l) for op, l in zip(case.ops, lines[1:]) if op.endswith("hsdump")]
+    for op, l in dumps:
+        role = "made with connect()" if op.startswith("rawwait 3") else "accepted on a bound endpoint"
+        if not l.startswith("hs "):
+            return f"on a connection {role} the {t} socket did not complete its side of the handshake: {l}"
+        data = bytes.fromhex(l.split()[1])
+        g = zmtp.parse_greeting(data[:64])
+        if isinstance(g, str):
+            return f"greeting sent by the {t} socket on a connection {role} is malformed: {g}"
+        if g[0] != 3 or g[1] != 0 or g[2] != b"NULL" or g[3] != 0:
+            return (f"greeting sent by the {t} socket on a connection {role} is not version 3.0 / NULL / as-server 0: "
+                    f"version {g[0]}.{g[1]} mechanism {g[2]!r} as-server {g[3]} (octet 32 of {data[:64].hex()})")
+        try:
+            frames = zmtp.parse_frames(data[64:])
+            name, props = zmtp.parse_command(frames[0][1])
+        except (ValueError, IndexError) as e:
+            return f"READY sent by the {t} socket on a connection {role} is not well-formed: {e}"
+        if len(frames) != 1 or name != b"READY" or dict(props) != {b"Socket-Type": t.encode()}:
+            return f"READY sent by the {t} socket on a connection {role}: {name!r} {props!r}"
+    return None
 
 
 def socket_cases(tier):
@@ -255,7 +304,7 @@ def socket_oracle(case, lines):
 
 
 def nontrivial(case, impl_lines):
-    return any(l.startswith("wire ") and len(l) > 9 for l in impl_lines)
+    return any((l.startswith("wire ") and len(l) > 9) or l.startswith("hs ") for l in impl_lines)
 
 
 _spec_cache = {}
@@ -278,6 +327,8 @@ def oracle_batch(cases_, impls):
     bytes gives the identical message; greeting / READY are well-formed per the RFC grammar."""
     if cases_ and cases_[0].engine == "world":
         return [socket_oracle(c, il) for c, il in zip(cases_, impls)]
+    if cases_ and cases_[0].engine == "net":
+        return [transport_oracle(c, il) for c, il in zip(cases_, impls)]
     verdicts = [None] * len(cases_)
     full_ops = []  # (case idx, op, kind)
     for ci, (case, impl_lines) in enumerate(zip(cases_, impls)):
